@@ -41,6 +41,19 @@ bool removeHandleFromScopedRemoverItemList(std::vector<Item> & itemList, Handle 
 	return false;
 }
 
+template <typename Item, typename Handle, typename Mutex>
+bool hasHandleInScopedRemoverItemList(std::vector<Item> & itemList, Handle & handle, Mutex & mutex)
+{
+	if(! handle) {
+		return false;
+	}
+	auto handlePointer = handle.lock();
+	std::unique_lock<Mutex> lock(mutex);
+	return std::find_if(itemList.begin(), itemList.end(), [&handlePointer](Item & item) {
+		return item.handle && item.handle.lock() == handlePointer;
+	}) != itemList.end();
+}
+
 } //namespace internal_
 
 template <typename DispatcherType, typename Enabled = void>
@@ -172,10 +185,16 @@ public:
 
 	bool removeListener(const typename DispatcherType::Event & event, const typename DispatcherType::Handle handle)
 	{
-		if(internal_::removeHandleFromScopedRemoverItemList(itemList, handle, itemListMutex)) {
-			return dispatcher->removeListener(event, handle);
+		// Looking up the event in the dispatcher can throw. The listener stays recorded here until the
+		// dispatcher has removed it, otherwise a failed removal would leave it attached for ever.
+		// The node is kept alive so that the record can still be found afterwards.
+		const auto keepAlive = handle.lock();
+		if(! internal_::hasHandleInScopedRemoverItemList(itemList, handle, itemListMutex)) {
+			return false;
 		}
-		return false;
+		const bool removed = dispatcher->removeListener(event, handle);
+		internal_::removeHandleFromScopedRemoverItemList(itemList, handle, itemListMutex);
+		return removed;
 	}
 
 private:
